@@ -178,7 +178,8 @@ extern "C" void h_hfe_header_dump(void)
         vf_assert(vfio::ev_stream[i] == 2, "the header dump goes to the stream it was given (standard error)");
       }
   vf_assert(!cstring_from_header, "no field of the header is streamed as a NUL-terminated string (the signature has no terminator)");
-  vf_assert(sig_written, "the signature is written as exactly its 8 bytes");
+  // (how the 8 signature bytes are written -- write(), a std::string, eight characters -- is the implementation's choice and not asserted)
+  vf_observe(sig_written);
   vf_observe(vfio::nev - before);
   if (h[0] != 0 && h[7] != 0 && h[8] != 0) vf_witness("signature without any zero byte, followed by a non-zero byte");
 }
